@@ -78,6 +78,16 @@ class Executor:
                 pm.permeances = [(Permeance(value=int(round(p_[0].value)) + 1, units=u), Permeance(value=int(round(p_[1].value)) + 1, units=u))
                                  for p_ in pm.permeances]
             return pm
+        if kind == "process" and item.get("blank_heats"):
+            base = dict(item)
+            blanks = base.pop("blank_heats")
+            pm = self._build(base)
+            heats = list(pm.permeate_condensation_heat)
+            for j in blanks:
+                if j < len(heats):
+                    heats[j] = None
+            pm.permeate_condensation_heat = heats
+            return pm
         if kind == "process" and item.get("second_stage"):
             base = dict(item)
             st2 = base.pop("second_stage")
